@@ -25,6 +25,7 @@ type Obligation struct {
 	Goal   string
 	Descr  string
 	Quant  bool
+	relaxed bool // replay only: candidate search with instantiated quantifiers
 	fc     *FnCtx
 	Result *SolveResult
 	// cover obligations succeed on sat
@@ -155,6 +156,7 @@ type loopInfo struct {
 	// filled during translation
 	phiFresh map[*ssa.Phi]Val
 	hstate   *State
+	headCtr  int // allocation counter when the header was reached
 }
 
 func (fc *FnCtx) fresh(prefix string) string {
